@@ -21,6 +21,19 @@ GP = "pyjelly.integrations.generic.parse"
 DECODER = f"{PD}:Decoder"
 ADAPTERS = ["GenericStatementSinkAdapter", "GenericTriplesAdapter", "GenericQuadsBaseAdapter", "GenericQuadsAdapter",
             "GenericGraphsAdapter"]
+RP = "pyjelly.integrations.rdflib.parse"
+R_ADAPTERS = ["RDFLibAdapter", "RDFLibTriplesAdapter", "RDFLibQuadsBaseAdapter", "RDFLibQuadsAdapter", "RDFLibGraphsAdapter"]
+# both integrations' adapters, by what they make of rows (the Decoder contracts are verified once per adapter class)
+ADAPTER_KIND = {"GenericTriplesAdapter": "triples", "GenericQuadsAdapter": "quads", "GenericGraphsAdapter": "graphs",
+                "RDFLibTriplesAdapter": "triples", "RDFLibQuadsAdapter": "quads", "RDFLibGraphsAdapter": "graphs"}
+
+
+def akind(D: Any) -> str:
+    return ADAPTER_KIND.get(D.adapter.cls.name, "base")
+
+
+def is_rdflib(D: Any) -> bool:
+    return D.adapter.cls.name.startswith("RDFLib")
 
 
 # ---- constructing the generic term classes yields values of the term datatype ------------------------------------
@@ -89,6 +102,23 @@ shape(DECODER, fields=_dec_fields)
 shape(DECODER + "@graphs", fields={**_dec_fields, "adapter": OBJ(f"{GP}:GenericGraphsAdapter")})
 shape(DECODER + "@triples", fields={**_dec_fields, "adapter": OBJ(f"{GP}:GenericTriplesAdapter")})
 shape(DECODER + "@quads", fields={**_dec_fields, "adapter": OBJ(f"{GP}:GenericQuadsAdapter")})
+for _a in R_ADAPTERS:
+    _f = dict(options=PARSER_OPTIONS, parsing_mode=Sort("any"))
+    if _a == "RDFLibGraphsAdapter":
+        _f["_graph_id"] = OPT(ADTS("gterm"))
+    shape(f"{RP}:{_a}", fields=_f)
+shape(DECODER + "@r", fields={**_dec_fields, "adapter": OBJ(f"{RP}:RDFLibAdapter")})
+shape(DECODER + "@rtriples", fields={**_dec_fields, "adapter": OBJ(f"{RP}:RDFLibTriplesAdapter")})
+shape(DECODER + "@rquads", fields={**_dec_fields, "adapter": OBJ(f"{RP}:RDFLibQuadsAdapter")})
+shape(DECODER + "@rgraphs", fields={**_dec_fields, "adapter": OBJ(f"{RP}:RDFLibGraphsAdapter")})
+for _m in ("iri", "bnode", "default_graph", "literal", "namespace_declaration"):
+    inline(f"{RP}:RDFLibAdapter.{_m}")
+inline(f"{RP}:RDFLibTriplesAdapter.triple")
+inline(f"{RP}:RDFLibQuadsAdapter.quad")
+inline(f"{RP}:RDFLibGraphsAdapter.graph")
+for _m in ("RDFLibTriplesAdapter", "RDFLibQuadsBaseAdapter", "RDFLibGraphsAdapter"):
+    inline(f"{RP}:{_m}.__init__")
+inline(f"{RP}:_adapter_missing")
 
 # adapter methods and trivial decoder wrappers are one-liners around a constructor: executed in place
 for _m in ("iri", "bnode", "default_graph", "literal", "namespace_declaration", "quoted_triple"):
@@ -117,9 +147,10 @@ LOOKUP_ERRORS = ("IndexError", "JellyConformanceError")
 
 
 # ------------------------------------------------------------------------------------------------------- decode_iri
-@contract(f"{PD}:Decoder.decode_iri", serves=["C04", "C16", "C01", "C05", "C14"])
+@contract(f"{PD}:Decoder.decode_iri", serves=["C04", "C16", "C01", "C05", "C14", "C02"])
 class _decode_iri:
     params = {"self": OBJ(DECODER), "iri": MSG("RdfIri")}
+    variants = [{}, {"self": OBJ(DECODER + "@r")}]       # generic adapter / rdflib adapter
     result = ADTS("gterm")
     modifies = ["self.names.last_reused_index", "self.names.T", "self.prefixes.last_reused_index", "self.prefixes.T"]
 
@@ -143,9 +174,10 @@ class _decode_iri:
 
 
 # --------------------------------------------------------------------------------------------------- decode_literal
-@contract(f"{PD}:Decoder.decode_literal", serves=["C04", "C16", "C01"])
+@contract(f"{PD}:Decoder.decode_literal", serves=["C04", "C16", "C01", "C02"])
 class _decode_literal:
     params = {"self": OBJ(DECODER), "literal": MSG("RdfLiteral")}
+    variants = [{}, {"self": OBJ(DECODER + "@r")}]
     result = ADTS("gterm")
     modifies = ["self.datatypes.last_reused_index", "self.datatypes.T"]
 
@@ -234,17 +266,34 @@ class _decode_quoted:
     correctness).  *Which* term comes out (the nested denotation) and exactly when it is refused are not specified here:
     bounded nets only."""
     params = {"self": OBJ(DECODER), "triple": MSG("RdfTriple")}
+    # rdflib has no quoted-triple term: its adapter refuses (NotImplementedError) after the nested terms were decoded
+    variants = [{}, {"self": OBJ(DECODER + "@r"), "$never_returns": True}]
     result = ADTS("gterm")
     modifies = ["self.names.last_reused_index", "self.names.T", "self.prefixes.last_reused_index", "self.prefixes.T",
                 "self.datatypes.last_reused_index", "self.datatypes.T"]
 
-    def requires(e): return wf_dec(e.self)
+    def requires(e):
+        from .options import known_logical, known_phys
+        stypes = e.self.adapter.options.items[0]
+        return And(wf_dec(e.self), known_phys(stypes.physical_type), known_logical(stypes.logical_type))
 
     def raises(e): return {("?",) + ANY_DECODE_ERROR: True}
 
     def on_raise(e): return {"anything": True}
 
-    def ensures(e): return {"is-quoted-triple": GTerm.is_QTriple(e.result), "tables-are-spec-tables": wf_dec(e.self)}
+    def ensures(e):
+        if is_rdflib(e.self):
+            return {"the-rdflib-adapter-has-no-quoted-triples": False}
+        return {"is-quoted-triple": GTerm.is_QTriple(e.result), "tables-are-spec-tables": wf_dec(e.self)}
+
+
+def default_graph_term(D: Any) -> Any:
+    """what the integration's adapter delivers for the default graph: the generic DefaultGraph object, or rdflib's
+    DATASET_DEFAULT_GRAPH_ID (a URIRef)"""
+    if is_rdflib(D):
+        from .terms import RDFLIB_DEFAULT_GRAPH
+        return GTerm.IRI(z3.StringVal(RDFLIB_DEFAULT_GRAPH))
+    return GTerm.DefaultGraph
 
 
 def slot_spec(st: Any, oneof: str, D: Any) -> dict:
@@ -264,7 +313,7 @@ def slot_spec(st: Any, oneof: str, D: Any) -> dict:
     out["literal"] = (which_is(st, f"{p}_literal"), Or(Not(dt), vd),
                       GTerm.Lit(lit.lex, lang, z3.If(lang, lit.langtag, z3.StringVal("")), dt, z3.If(dt, dv, z3.StringVal(""))))
     if oneof == "graph":
-        out["default"] = (which_is(st, "g_default_graph"), True, GTerm.DefaultGraph)
+        out["default"] = (which_is(st, "g_default_graph"), True, default_graph_term(D))
     else:
         out["quoted"] = which_is(st, f"{p}_triple_term")
     return out
@@ -342,7 +391,7 @@ def expected_terms(st: Any, D: Any, oneofs: tuple) -> tuple[Any, list]:
         t_lit = GTerm.Lit(lit.lex, lang, z3.If(lang, lit.langtag, z3.StringVal("")), dt, z3.If(dt, dv, z3.StringVal("")))
         t_bn = GTerm.BNode(getattr(st, f"{p}_bnode"))
         unset = which_unset(st, oneof)
-        t = z3.If(unset, opt_val(rep), z3.If(is_iri, t_iri, z3.If(which_is(st, f"{p}_literal"), t_lit, z3.If(which_is(st, f"{p}_bnode"), t_bn, GTerm.DefaultGraph))))
+        t = z3.If(unset, opt_val(rep), z3.If(is_iri, t_iri, z3.If(which_is(st, f"{p}_literal"), t_lit, z3.If(which_is(st, f"{p}_bnode"), t_bn, default_graph_term(D)))))
         ok = z3.If(unset, Not(is_none(rep)), z3.If(is_iri, And(vn, vp), z3.If(which_is(st, f"{p}_literal"), Or(Not(dt), vd), True)))
         quoted = which_is(st, f"{p}_triple_term") if oneof != "graph" else False
         terms.append((t, And(chain_ok, Not(quoted))))
@@ -353,19 +402,23 @@ def expected_terms(st: Any, D: Any, oneofs: tuple) -> tuple[Any, list]:
     return valid, terms
 
 
-@contract(f"{PD}:Decoder.decode_statement", serves=["C04", "C16", "C01", "C15"])
+@contract(f"{PD}:Decoder.decode_statement", serves=["C04", "C16", "C01", "C15", "C02"])
 class _decode_statement:
     """Every slot of a statement row is decoded by the spec rules in order (delta bases chained), an unset slot repeats
     the previous term of that slot, and the call raises exactly when the spec calls the row invalid (flat terms; a quoted
     slot is opaque, see decode_quoted_triple)."""
     params = {"self": OBJ(DECODER), "statement": MSG("RdfTriple"), "oneofs": CONSTV(Tup(("subject", "predicate", "object")))}
-    variants = [{}, {"statement": MSG("RdfQuad"), "oneofs": CONSTV(Tup(("subject", "predicate", "object", "graph")))}]
+    _Q = {"statement": MSG("RdfQuad"), "oneofs": CONSTV(Tup(("subject", "predicate", "object", "graph")))}
+    variants = [{}, dict(_Q), {"self": OBJ(DECODER + "@r")}, {"self": OBJ(DECODER + "@r"), **_Q}]
     result = staticmethod(lambda e: LISTOF(ADTS("gterm"), len(e.oneofs.items)))
     loops = {0: _LOOP}
     modifies = ["self.repeated_terms", "self.names.last_reused_index", "self.names.T", "self.prefixes.last_reused_index",
                 "self.prefixes.T", "self.datatypes.last_reused_index", "self.datatypes.T"]
 
-    def requires(e): return wf_dec(e.self)
+    def requires(e):
+        from .options import known_logical, known_phys
+        stypes = e.self.adapter.options.items[0]
+        return And(wf_dec(e.self), known_phys(stypes.physical_type), known_logical(stypes.logical_type))
 
     def raises(e):
         oneofs = tuple(e.oneofs.items)
@@ -388,6 +441,14 @@ class _decode_statement:
 
 
 # ------------------------------------------------------------------------------- decode_triple / decode_quad (rows)
+def _row_result_sort(D: Any) -> Any:
+    """what the adapter makes of a statement row: the generic Triple (a term), rdflib's Triple (a 3-tuple), or a Quad"""
+    g4 = (ADTS("gterm"),) * 4
+    if akind(D) == "triples":
+        return NTUP(f"{RP}:Triple", *g4[:3]) if is_rdflib(D) else ADTS("gterm")
+    return NTUP(f"{RP}:Quad", *g4) if is_rdflib(D) else NTUP(f"{GS}:Quad", *g4)
+
+
 def _row_contract(method: str, msg: str, oneofs: tuple) -> Any:
     class C:
         """A statement row: slots decoded by decode_statement's contract, then handed to the adapter of the stream's
@@ -395,12 +456,11 @@ def _row_contract(method: str, msg: str, oneofs: tuple) -> Any:
         GRAPHS adapter refuses a triple while no graph is open."""
         params = {"self": OBJ(DECODER + "@triples"), method.split("_")[1]: MSG(msg)}
         # an adapter that has no handler for this row kind refuses every row: those variants have raising paths only
-        variants = [{"self": OBJ(DECODER + "@triples"), "$never_returns": method == "decode_quad"},
-                    {"self": OBJ(DECODER + "@quads"), "$never_returns": method == "decode_triple"},
-                    {"self": OBJ(DECODER + "@graphs"), "$never_returns": method == "decode_quad"}]
+        variants = [{"self": OBJ(DECODER + sfx + "triples"), "$never_returns": method == "decode_quad"} for sfx in ("@", "@r")] + \
+                   [{"self": OBJ(DECODER + sfx + "quads"), "$never_returns": method == "decode_triple"} for sfx in ("@", "@r")] + \
+                   [{"self": OBJ(DECODER + sfx + "graphs"), "$never_returns": method == "decode_quad"} for sfx in ("@", "@r")]
         # what the adapter makes of the row: a Triple (generic term) or a Quad
-        result = staticmethod(lambda e: ADTS("gterm") if e.self.adapter.cls.name == "GenericTriplesAdapter"
-                              else NTUP(f"{GS}:Quad", ADTS("gterm"), ADTS("gterm"), ADTS("gterm"), ADTS("gterm")))
+        result = staticmethod(lambda e: _row_result_sort(e.self))
         modifies = ["self.repeated_terms", "self.names.last_reused_index", "self.names.T", "self.prefixes.last_reused_index",
                     "self.prefixes.T", "self.datatypes.last_reused_index", "self.datatypes.T"]
 
@@ -413,12 +473,12 @@ def _row_contract(method: str, msg: str, oneofs: tuple) -> Any:
             st = getattr(e, method.split("_")[1])
             valid, _terms = expected_terms(st, e.self, oneofs)
             anyq = Or(*[which_is(st, f"{ONEOF_PREFIX[o]}_triple_term") for o in oneofs if o != "graph"])
-            acls = e.self.adapter.cls.name
-            supported = {"decode_triple": ("GenericTriplesAdapter", "GenericGraphsAdapter"), "decode_quad": ("GenericQuadsAdapter",)}[method]
+            kind = akind(e.self)
+            supported = {"decode_triple": ("triples", "graphs"), "decode_quad": ("quads",)}[method]
             out = {ANY_DECODE_ERROR: And(Not(anyq), Not(valid)), ("?",) + ANY_DECODE_ERROR: anyq}
-            if acls not in supported:
+            if kind not in supported:
                 out["NotImplementedError"] = And(Not(anyq), valid)
-            elif acls == "GenericGraphsAdapter":
+            elif kind == "graphs":
                 out["JellyConformanceError"] = And(Not(anyq), valid, is_none(e.self.adapter._graph_id))
             return out
 
@@ -427,13 +487,16 @@ def _row_contract(method: str, msg: str, oneofs: tuple) -> Any:
         def ensures(e):
             st = getattr(e.old, method.split("_")[1])
             valid, terms = expected_terms(st, e.old.self, oneofs)
-            acls = e.self.adapter.cls.name
+            kind = akind(e.self)
             r = e.result
-            supported = {"decode_triple": ("GenericTriplesAdapter", "GenericGraphsAdapter"), "decode_quad": ("GenericQuadsAdapter",)}[method]
-            if acls not in supported:
+            supported = {"decode_triple": ("triples", "graphs"), "decode_quad": ("quads",)}[method]
+            if kind not in supported:
                 return {"a-row-kind-the-adapter-has-no-handler-for-never-gets-through": False}
             out = {"tables-are-spec-tables": wf_dec(e.self)}
-            if acls == "GenericGraphsAdapter":
+            if kind == "triples" and is_rdflib(e.self):
+                items = list(r.items)       # rdflib's Triple is a plain 3-tuple of terms
+                out["triple-of-decoded-terms"] = And(*[Implies(ok, a == t) for a, (t, ok) in zip(items, terms)]) if len(items) == 3 else False
+            elif kind == "graphs":
                 items = list(r.items) + []
                 exp = [t for t, _ok in terms] + [opt_val(e.self.adapter._graph_id)]
                 oks = [ok for _t, ok in terms] + [True]
@@ -448,15 +511,16 @@ def _row_contract(method: str, msg: str, oneofs: tuple) -> Any:
     return C
 
 
-contract(f"{PD}:Decoder.decode_triple", serves=["C04", "C16", "C01", "C15"])(_row_contract("decode_triple", "RdfTriple", ("subject", "predicate", "object")))
-contract(f"{PD}:Decoder.decode_quad", serves=["C04", "C16", "C01", "C15"])(_row_contract("decode_quad", "RdfQuad", ("subject", "predicate", "object", "graph")))
+contract(f"{PD}:Decoder.decode_triple", serves=["C04", "C16", "C01", "C15", "C02"])(_row_contract("decode_triple", "RdfTriple", ("subject", "predicate", "object")))
+contract(f"{PD}:Decoder.decode_quad", serves=["C04", "C16", "C01", "C15", "C02"])(_row_contract("decode_quad", "RdfQuad", ("subject", "predicate", "object", "graph")))
 
 
 # ------------------------------------------------------------------------------- namespace declarations (C14)
-@contract(f"{PD}:Decoder.decode_namespace_declaration", serves=["C14", "C04", "C16"])
+@contract(f"{PD}:Decoder.decode_namespace_declaration", serves=["C14", "C04", "C16", "C02"])
 class _decode_ns:
     params = {"self": OBJ(DECODER), "declaration": MSG("RdfNamespaceDeclaration")}
-    result = NTUP(f"{GS}:Prefix", STR, ADTS("gterm"))
+    variants = [{}, {"self": OBJ(DECODER + "@r")}]
+    result = staticmethod(lambda e: NTUP(f"{RP if is_rdflib(e.self) else GS}:Prefix", STR, ADTS("gterm")))
     modifies = ["self.names.last_reused_index", "self.names.T", "self.prefixes.last_reused_index", "self.prefixes.T"]
 
     def requires(e): return wf_dec(e.self)
@@ -479,13 +543,15 @@ class _decode_ns:
                 "tables-are-spec-tables": wf_dec(e.self)}
 
 
-@contract(f"{PD}:Decoder.decode_graph_start", serves=["C04", "C16"])
+@contract(f"{PD}:Decoder.decode_graph_start", serves=["C04", "C16", "C02"])
 class _decode_graph_start:
     """a graph-start row: the graph name is decoded by the spec rules and the GRAPHS adapter opens the graph; the adapters
     of the other physical types have no such row (C16: row kind the physical type forbids) and refuse it"""
     params = {"self": OBJ(DECODER + "@graphs"), "graph_start": MSG("RdfGraphStart")}
     variants = [{"self": OBJ(DECODER + "@graphs")}, {"self": OBJ(DECODER + "@triples"), "$never_returns": True},
-                {"self": OBJ(DECODER + "@quads"), "$never_returns": True}]
+                {"self": OBJ(DECODER + "@quads"), "$never_returns": True},
+                {"self": OBJ(DECODER + "@rgraphs")}, {"self": OBJ(DECODER + "@rtriples"), "$never_returns": True},
+                {"self": OBJ(DECODER + "@rquads"), "$never_returns": True}]
     modifies = ["self.adapter._graph_id", "self.names.last_reused_index", "self.names.T", "self.prefixes.last_reused_index",
                 "self.prefixes.T", "self.datatypes.last_reused_index", "self.datatypes.T"]
 
@@ -498,14 +564,14 @@ class _decode_graph_start:
         sp = slot_spec(e.graph_start, "graph", e.self)
         bad = Or(sp["unset"], And(sp["iri"][0], Not(sp["iri"][1])), And(sp["literal"][0], Not(sp["literal"][1])))
         out = {ANY_DECODE_ERROR: bad}
-        if e.self.adapter.cls.name != "GenericGraphsAdapter":
+        if akind(e.self) != "graphs":
             out["NotImplementedError"] = Not(bad)
         return out
 
     def on_raise(e): return {"anything": True}
 
     def ensures(e):
-        if e.self.adapter.cls.name != "GenericGraphsAdapter":
+        if akind(e.self) != "graphs":
             return {"a-row-kind-the-adapter-has-no-handler-for-never-gets-through": False}
         sp = slot_spec(e.old.graph_start, "graph", e.old.self)
         g = e.self.adapter._graph_id
@@ -551,7 +617,7 @@ def _rows_after(e):
         ent = getattr(ro, k)
         _valid, T2 = spec_assign(getattr(O, tab).T, ent.id, ent.value)
         out[f"{k}-entry-row-is-the-spec-assignment"] = Implies(is_kind(k), table_eq(getattr(D, tab).T, T2))
-    if e.self.adapter.cls.name == "GenericTriplesAdapter" and len(ys) == 1 and z3.is_expr(ys[0]):
+    if akind(e.self) == "triples" and not is_rdflib(e.self) and len(ys) == 1 and z3.is_expr(ys[0]):
         _v, terms = expected_terms(ro.triple, O, ("subject", "predicate", "object"))
         allok = And(*[ok for _t, ok in terms])
         out["triple-row-yields-the-spec-decoding"] = Implies(And(is_kind("triple"), allok), ys[0] == GTerm.QTriple(*[t for t, _ok in terms]))
@@ -581,8 +647,8 @@ def _iter_rows(adapter_shape: str, extra_mod: list) -> Any:
 
 
 _IR = _iter_rows("@triples", ["self.adapter._graph_id"])
-_IR.variants = [{"self": OBJ(DECODER + "@triples")}, {"self": OBJ(DECODER + "@quads")}, {"self": OBJ(DECODER + "@graphs")}]
-contract(f"{PD}:Decoder.iter_rows", serves=["C04", "C16", "C07", "C10"])(_IR)
+_IR.variants = [{"self": OBJ(DECODER + sfx + k)} for sfx in ("@", "@r") for k in ("triples", "quads", "graphs")]
+contract(f"{PD}:Decoder.iter_rows", serves=["C04", "C16", "C07", "C10", "C02"])(_IR)
 
 
 # ------------------------------------------------------------------------------------------------- Decoder.__init__
@@ -598,7 +664,8 @@ class _decoder_init:
     nothing is allocated for a larger declared size), remembers no terms, and shares nothing with other decoders"""
     params = {"self": NEWOBJ(DECODER), "adapter": OBJ(f"{GP}:GenericStatementSinkAdapter")}
     variants = [{"adapter": OBJ(f"{GP}:GenericTriplesAdapter")}, {"adapter": OBJ(f"{GP}:GenericQuadsAdapter")},
-                {"adapter": OBJ(f"{GP}:GenericGraphsAdapter")}]
+                {"adapter": OBJ(f"{GP}:GenericGraphsAdapter")}, {"adapter": OBJ(f"{RP}:RDFLibTriplesAdapter")},
+                {"adapter": OBJ(f"{RP}:RDFLibQuadsAdapter")}, {"adapter": OBJ(f"{RP}:RDFLibGraphsAdapter")}]
     modifies = ["self"]
 
     def requires(e):
@@ -689,6 +756,10 @@ contract(f"{GP}:parse_triples_stream", serves=["C07", "C04", "C16", "C11"])(
     _parse_stream("parse_triples_stream", {"GenericTriplesAdapter": lambda p: True}))
 contract(f"{GP}:parse_quads_stream", serves=["C07", "C04", "C16", "C11"])(
     _parse_stream("parse_quads_stream", {"GenericQuadsAdapter": lambda p: p == 2, "GenericGraphsAdapter": lambda p: p != 2}))
+contract(f"{RP}:parse_triples_stream", serves=["C07", "C04", "C16", "C11", "C02", "C15"])(
+    _parse_stream("parse_triples_stream", {"RDFLibTriplesAdapter": lambda p: True}))
+contract(f"{RP}:parse_quads_stream", serves=["C07", "C04", "C16", "C11", "C02", "C15"])(
+    _parse_stream("parse_quads_stream", {"RDFLibQuadsAdapter": lambda p: p == 2, "RDFLibGraphsAdapter": lambda p: p != 2}))
 
 inline(f"{GP}:GenericTriplesAdapter.__init__")
 inline(f"{GP}:GenericQuadsAdapter.__init__")
